@@ -434,6 +434,11 @@ func getHorizontalTileIdOnPoint(lon float64, lat float64, hZoom int64) string {
 
 	// 経度方向のインデックスの計算
 	lonIndex := math.Floor(math.Pow(2, float64(hZoom)) * ((lon + 180.0) / 360.0))
+	if lon < lonIndex*360/math.Pow(2, float64(hZoom))-180 {
+		// (lon + 180.0) の丸め誤差により、タイル西端(倍精度で正確に表現できる)のわずかに西の経度が東隣のタイルに
+		// 入ることがある(経度180度の直前ではインデックスが2^hZoomになる)ため、西端より西であれば1つ西のタイルに補正する
+		lonIndex--
+	}
 
 	// 緯度をラジアンに変換
 	latRadian := common.DegreeToRadian(lat)
